@@ -11,9 +11,9 @@ def configs(ctx):
     for b in biorts:
         for colour in (False, True):
             C = 3 if colour else 2
-            for (H, W) in ((4, 6),) + (((8, 4),) if not ctx.quick else ()):
+            for (H, W) in ((4, 6),) + (((8, 4), (6, 6), (2, 8), (10, 4)) if not ctx.quick else ()):
                 items.append((1, b, H, W, C, colour))
-            for (H, W) in ((8, 8),) + (((8, 16),) if not ctx.quick else ()):
+            for (H, W) in ((8, 8),) + (((8, 16), (16, 8), (12, 8)) if not ctx.quick else ()):
                 items.append((2, b, H, W, C, colour))
         # non-default padding mode: backward and forward must still be each other's derivative
         items.append((1, b, 4, 6, 2, False, 'zero'))
